@@ -29,6 +29,12 @@ OBLIGATIONS = [
     dict(ob("update_arith_contract", "h_update", "randomx_blake2b_update/rxv_update_arith", ["blake2b_compress"], loop_contracts=True,
             expect_classes=["postcondition", "loop_invariant_base", "loop_invariant_step"], weight=5),
          files=[WOVEN_ARITH, "harness_blake2b.c", "ghost_blake2b.c", "@stubs/memstub.c"]),
+    dict(ob("TRY_update_arith_kissat", "h_update", "randomx_blake2b_update/rxv_update_arith", ["blake2b_compress"], loop_contracts=True, tier="try", backend="kissat", timeout=2400,
+            expect_classes=["postcondition", "loop_invariant_base", "loop_invariant_step"], weight=5),
+         files=[WOVEN_ARITH, "harness_blake2b.c", "ghost_blake2b.c", "@stubs/memstub.c"]),
+    dict(ob("TRY_update_arith_cadical", "h_update", "randomx_blake2b_update/rxv_update_arith", ["blake2b_compress"], loop_contracts=True, tier="try", backend="cadical", timeout=2400,
+            expect_classes=["postcondition", "loop_invariant_base", "loop_invariant_step"], weight=5),
+         files=[WOVEN_ARITH, "harness_blake2b.c", "ghost_blake2b.c", "@stubs/memstub.c"]),
     ob("update_contract", "h_update", "randomx_blake2b_update", ["blake2b_compress"], loop_contracts=True, tier="thorough", timeout=7200,
        expect_classes=["postcondition", "loop_invariant_base", "loop_invariant_step"], weight=5),
     ob("final_contract", "h_final", "randomx_blake2b_final", ["blake2b_compress"],
